@@ -18,7 +18,7 @@ Definition check_state (fx fb : bool) (p : prog) (st : state) : bool :=
        (fb || negb (shield_free p && catch_free p && (1 <=? g_ext st)) || cancelled_out st)
        (Nat.eqb (g_floor st) 0)
        (negb fx || Nat.eqb (g_leak st) 0).
-Definition check_run (fl : bool * bool) (p : prog) (pos : list (nat * bool)) : bool :=
+Definition check_run (fl : bool * bool) (p : prog) (pos : list (nat * bool * nat)) : bool :=
   check_state (fst fl) (snd fl) p (bounded_run (fst fl) (snd fl) p pos).
 
 (* the statements are spelled out (no intermediate constant) so that the kernel compares them syntactically instead of
